@@ -14,6 +14,8 @@
 
 # from copy import deepcopy
 
+from itertools import combinations
+
 from sympy import Symbol
 from sympy.logic import And, Not, Or, Xor
 from sympy.logic.boolalg import Boolean, BooleanFalse, BooleanTrue
@@ -172,8 +174,6 @@ class InternalCompiler(Compiler):
         return dest
 
     def compile_or(self, qc, expr, dest=None) -> int:
-        # TODO: this won't work on len(expr.args) > 2
-
         # 1. Compile every argument
         erets = list(map(lambda e: self.compile_expr(qc, e), expr.args))
 
@@ -185,13 +185,15 @@ class InternalCompiler(Compiler):
         if dest in erets:
             erets.remove(dest)
 
-        # . Perform the CX between all args and dest
+        # 4. Xor into dest the conjunction of every non-empty subset of the
+        # (distinct) argument qubits: a | b = a ^ b ^ ab
         erets = list(set(erets))
-        for i in erets:
-            qc.cx(i, dest)
-
-        # 4. Perform the MCX between all args
-        qc.mcx(erets, dest)
+        for k in range(1, len(erets) + 1):
+            for subset in combinations(erets, k):
+                if k == 1:
+                    qc.cx(subset[0], dest)
+                else:
+                    qc.mcx(list(subset), dest)
 
         # 5. Mark ancilla every argument and return
         [qc.mark_ancilla(eret) for eret in erets]
